@@ -191,6 +191,27 @@ def _embedding_laws(name, n, rng):
     return [o]
 
 
+ASPECT = {"C05": ["classical_qsvd_full", "classical_qsvd"], "C06": ["qr_qua"], "C07": ["quaternion_lu", "quaternion_lu.mode2"],
+          "C11": ["rank", "quat_null_space", "quat_null_space.left"], "C12": ["rand_qsvd", "pass_eff_qsvd"],
+          "C15": ["quat_frobenius_norm", "matrix_norm.1", "matrix_norm.inf", "matrix_norm.2", "induced_matrix_norm_1", "induced_matrix_norm_inf", "spectral_norm_2", "normQ"],
+          "C03": ["NewtonSchulzPseudoinverse.compute", "HigherOrderNewtonSchulzPseudoinverse.compute"], "C01": ["quat_hermitian"]}
+
+
+def build_aspect(name, n, rng):
+    """the routine's first matrix argument replaced by a STRONGLY rectangular one: name@ts -> (4n+3) x n, name@sf -> n x (4n+3)"""
+    base, how = name.split("@")
+    jn, fn, a, kw = build(base, max(n, 3), rng)
+    shape = (4 * n + 3, n) if how == "ts" else (n, 4 * n + 3)
+    a = list(a)
+    k = next(i for i, x in enumerate(a) if isinstance(x, np.ndarray) and x.dtype == np.quaternion and x.ndim == 2)
+    if base in ("rank", "quat_null_space", "quat_null_space.left"):
+        r_ = max(1, n - 1)
+        a[k] = q_from_float(omul(rng.standard_normal((shape[0], r_, 4)), rng.standard_normal((r_, shape[1], 4))))
+    else:
+        a[k] = _q(rng, *shape)
+    return jn, fn, tuple(a), kw
+
+
 def _job(args):
     name, n, seed = args
     rng = np.random.default_rng(seed)
@@ -199,7 +220,7 @@ def _job(args):
         return [(o.prop, o.fn, o.cls, dict(o.detail, routine=name, n=n), o.events) for o in recs]
     if name.startswith("c14:"):
         return _c14_job(name[4:], n, seed)
-    jn, fn, a, kw = build(name, n, rng)
+    jn, fn, a, kw = build_aspect(name, n, rng) if "@" in name else build(name, n, rng)
     judge = {path.split(".")[-1] if "." not in path else path: j for _, path, j in J.REGISTRY}
     jf = judge.get(jn) or judge.get(jn.split(".")[-1]) or {p.split(".")[-1]: j for _, p, j in J.REGISTRY}[jn.split(".")[-1]]
     pre = tuple(x.copy() if isinstance(x, np.ndarray) else x for x in a)
@@ -258,6 +279,10 @@ def stage(ctx, quick=False):
                 continue
             for rep in range(1 if quick else 2):
                 jobs.append((nm, n, ctx.seed * 1013 + 17 * n + rep + len(jobs)))
+    for nm in ASPECT.get(ctx.pid, []):
+        for how in ("ts", "sf"):
+            for n in ((3, 5) if quick else (3, 5, 8, 13)):
+                jobs.append((nm + "@" + how, n, ctx.seed * 1013 + 29 * n + len(jobs)))
     outs = par.pmap(_job, jobs, chunk=1)
     rec = S.Rec()
     ncalls = 0
@@ -266,7 +291,7 @@ def stage(ctx, quick=False):
             if prop != ctx.pid:
                 continue
             ncalls += 1
-            t = rec.new(fn, cls.replace("repo-test", "size-sweep"), detail)
+            t = rec.new(fn.replace(".repo-test", ""), cls.replace("repo-test", "size-sweep"), detail)
             for e in events:
                 rec.events.append(dict(e, tid=t))
     ctx.notes["size_sweep"] = {"routines": names, "sizes": sizes, "calls_judged": ncalls}
